@@ -73,14 +73,14 @@ package xpath
 //@   ensures-assumed[cursor-restored] pos(cur(t)) == old(pos(cur(t)))
 //@   ensures-assumed[restart-deterministic] old(pos(cur(t))) == old(ctxp(self)) ==> slen(ref(self), epoch(self)) == slen(ref(self), old(epoch(self))) && forall(i, Int, spos(ref(self), epoch(self), i) == spos(ref(self), old(epoch(self)), i))
 //@   ensures[valtype@C15] valtype(result) || result == nil && is(self, nopQuery)
-//@   ensures[reset@C02] resetOK(self)
-//@   ensures[resets-kids@C02] kidsReset(self)
+//@   ensures[reset@C02!] resetOK(self)
+//@   ensures[resets-kids@C02!] kidsReset(self)
 
 //@ iface query.Clone() result
 //@   modifies nothing
 //@   ensures[nonnil@C15,C04] result != nil
 //@   ensures[same-type@C15,C04] tagof(result) == tagof(self) || is(self, *cachedChildQuery) && is(result, *childQuery)
-//@   ensures[clone@C04,C05] cloneOK(self, result)
+//@   ensures[clone@C04,C05!] cloneOK(self, result)
 
 //@ iface query.Properties() result
 //@   modifies nothing
@@ -90,6 +90,25 @@ package xpath
 //@   trusted
 //@   modifies nothing
 //@ iface hash.Hash64.Sum64() result
+//@   trusted
+//@   modifies nothing
+
+//@ iface namespaceURL.NamespaceURL() result
+//@   trusted        // a method of the client's navigator: assumed not to touch engine state
+//@   modifies nothing
+//@ iface stringBuilder.Grow(n)
+//@   trusted
+//@   modifies nothing
+//@ iface stringBuilder.WriteRune(r) result0, result1
+//@   trusted
+//@   modifies nothing
+//@ iface stringBuilder.WriteString(s) result0, result1
+//@   trusted
+//@   modifies nothing
+//@ iface stringBuilder.String() result
+//@   trusted
+//@   modifies nothing
+//@ iface stringBuilder.Reset()
 //@   trusted
 //@   modifies nothing
 
@@ -133,9 +152,12 @@ package xpath
 //@   ensures[nonnil@C15] result != nil
 //@   requires[nonnil-args@C15] arg != nil
 //@ func countFunc$1
-//@   props C15
+//@   props C15 C04 C05
+//@   theory stream for C04 C05 C14
+//@   ensures[pure-arg@C04,C05] stateless(arg) || k(arg) == old(k(arg)) && epoch(arg) == old(epoch(arg))
 //@   conforms functionQuery.Func
 //@   captures arg != nil
+//@   loop 0 invariant[pure@C04,C05] (stateless(arg) || k(arg) == old(k(arg)) && epoch(arg) == old(epoch(arg)))
 
 //@ func sumFunc
 //@   props C15
@@ -143,10 +165,13 @@ package xpath
 //@   ensures[nonnil@C15] result != nil
 //@   requires[nonnil-args@C15] arg != nil
 //@ func sumFunc$1
-//@   props C15
+//@   props C15 C04 C05
+//@   theory stream for C04 C05 C14
+//@   ensures[pure-arg@C04,C05] stateless(arg) || k(arg) == old(k(arg)) && epoch(arg) == old(epoch(arg))
 //@   panics "sum() function argument type must be a node-set or number"
 //@   conforms functionQuery.Func
 //@   captures arg != nil
+//@   loop 0 invariant[pure@C04,C05] (stateless(arg) || k(arg) == old(k(arg)) && epoch(arg) == old(epoch(arg)))
 
 //@ func ceilingFunc
 //@   props C15
@@ -154,7 +179,9 @@ package xpath
 //@   ensures[nonnil@C15] result != nil
 //@   requires[nonnil-args@C15] arg != nil
 //@ func ceilingFunc$1
-//@   props C15
+//@   props C15 C04 C05
+//@   theory stream for C04 C05 C14
+//@   ensures[pure-arg@C04,C05] stateless(arg) || k(arg) == old(k(arg)) && epoch(arg) == old(epoch(arg))
 //@   conforms functionQuery.Func
 //@   captures arg != nil
 
@@ -164,7 +191,9 @@ package xpath
 //@   ensures[nonnil@C15] result != nil
 //@   requires[nonnil-args@C15] arg != nil
 //@ func floorFunc$1
-//@   props C15
+//@   props C15 C04 C05
+//@   theory stream for C04 C05 C14
+//@   ensures[pure-arg@C04,C05] stateless(arg) || k(arg) == old(k(arg)) && epoch(arg) == old(epoch(arg))
 //@   conforms functionQuery.Func
 //@   captures arg != nil
 
@@ -174,7 +203,9 @@ package xpath
 //@   ensures[nonnil@C15] result != nil
 //@   requires[nonnil-args@C15] arg != nil
 //@ func roundFunc$1
-//@   props C15
+//@   props C15 C04 C05
+//@   theory stream for C04 C05 C14
+//@   ensures[pure-arg@C04,C05] stateless(arg) || k(arg) == old(k(arg)) && epoch(arg) == old(epoch(arg))
 //@   conforms functionQuery.Func
 //@   captures arg != nil
 
@@ -183,7 +214,9 @@ package xpath
 //@   modifies nothing
 //@   ensures[nonnil@C15] result != nil
 //@ func nameFunc$1
-//@   props C15
+//@   props C15 C04 C05
+//@   theory stream for C04 C05 C14
+//@   ensures[pure-arg@C04,C05] arg != nil ==> stateless(arg) || k(arg) == old(k(arg)) && epoch(arg) == old(epoch(arg))
 //@   conforms functionQuery.Func
 
 //@ func localNameFunc
@@ -191,7 +224,9 @@ package xpath
 //@   modifies nothing
 //@   ensures[nonnil@C15] result != nil
 //@ func localNameFunc$1
-//@   props C15
+//@   props C15 C04 C05
+//@   theory stream for C04 C05 C14
+//@   ensures[pure-arg@C04,C05] arg != nil ==> stateless(arg) || k(arg) == old(k(arg)) && epoch(arg) == old(epoch(arg))
 //@   conforms functionQuery.Func
 
 //@ func namespaceFunc
@@ -199,7 +234,9 @@ package xpath
 //@   modifies nothing
 //@   ensures[nonnil@C15] result != nil
 //@ func namespaceFunc$1
-//@   props C15
+//@   props C15 C04 C05
+//@   theory stream for C04 C05 C14
+//@   ensures[pure-arg@C04,C05] arg != nil ==> stateless(arg) || k(arg) == old(k(arg)) && epoch(arg) == old(epoch(arg))
 //@   conforms functionQuery.Func
 
 //@ func booleanFunc
@@ -208,7 +245,9 @@ package xpath
 //@   ensures[nonnil@C15] result != nil
 //@   requires[nonnil-args@C15] arg1 != nil
 //@ func booleanFunc$1
-//@   props C15
+//@   props C15 C04 C05
+//@   theory stream for C04 C05 C14
+//@   ensures[pure-arg1@C04,C05] stateless(arg1) || k(arg1) == old(k(arg1)) && epoch(arg1) == old(epoch(arg1))
 //@   conforms functionQuery.Func
 //@   captures arg1 != nil
 
@@ -218,7 +257,9 @@ package xpath
 //@   ensures[nonnil@C15] result != nil
 //@   requires[nonnil-args@C15] arg1 != nil
 //@ func numberFunc$1
-//@   props C15
+//@   props C15 C04 C05
+//@   theory stream for C04 C05 C14
+//@   ensures[pure-arg1@C04,C05] stateless(arg1) || k(arg1) == old(k(arg1)) && epoch(arg1) == old(epoch(arg1))
 //@   conforms functionQuery.Func
 //@   captures arg1 != nil
 
@@ -228,7 +269,9 @@ package xpath
 //@   ensures[nonnil@C15] result != nil
 //@   requires[nonnil-args@C15] arg1 != nil
 //@ func stringFunc$1
-//@   props C15
+//@   props C15 C04 C05
+//@   theory stream for C04 C05 C14
+//@   ensures[pure-arg1@C04,C05] stateless(arg1) || k(arg1) == old(k(arg1)) && epoch(arg1) == old(epoch(arg1))
 //@   conforms functionQuery.Func
 //@   captures arg1 != nil
 
@@ -238,7 +281,10 @@ package xpath
 //@   ensures[nonnil@C15] result != nil
 //@   requires[nonnil-args@C15] arg1 != nil && arg2 != nil
 //@ func startwithFunc$1
-//@   props C15
+//@   props C15 C04 C05
+//@   theory stream for C04 C05 C14
+//@   ensures[pure-arg1@C04,C05] stateless(arg1) || k(arg1) == old(k(arg1)) && epoch(arg1) == old(epoch(arg1))
+//@   ensures[pure-arg2@C04,C05] stateless(arg2) || k(arg2) == old(k(arg2)) && epoch(arg2) == old(epoch(arg2))
 //@   panics "starts-with() function argument type must be string"
 //@   conforms functionQuery.Func
 //@   captures arg1 != nil && arg2 != nil
@@ -249,7 +295,10 @@ package xpath
 //@   ensures[nonnil@C15] result != nil
 //@   requires[nonnil-args@C15] arg1 != nil && arg2 != nil
 //@ func endwithFunc$1
-//@   props C15
+//@   props C15 C04 C05
+//@   theory stream for C04 C05 C14
+//@   ensures[pure-arg1@C04,C05] stateless(arg1) || k(arg1) == old(k(arg1)) && epoch(arg1) == old(epoch(arg1))
+//@   ensures[pure-arg2@C04,C05] stateless(arg2) || k(arg2) == old(k(arg2)) && epoch(arg2) == old(epoch(arg2))
 //@   panics "ends-with() function argument type must be string"
 //@   conforms functionQuery.Func
 //@   captures arg1 != nil && arg2 != nil
@@ -260,7 +309,10 @@ package xpath
 //@   ensures[nonnil@C15] result != nil
 //@   requires[nonnil-args@C15] arg1 != nil && arg2 != nil
 //@ func containsFunc$1
-//@   props C15
+//@   props C15 C04 C05
+//@   theory stream for C04 C05 C14
+//@   ensures[pure-arg1@C04,C05] stateless(arg1) || k(arg1) == old(k(arg1)) && epoch(arg1) == old(epoch(arg1))
+//@   ensures[pure-arg2@C04,C05] stateless(arg2) || k(arg2) == old(k(arg2)) && epoch(arg2) == old(epoch(arg2))
 //@   panics "contains() function argument type must be string"
 //@   conforms functionQuery.Func
 //@   captures arg1 != nil && arg2 != nil
@@ -271,7 +323,10 @@ package xpath
 //@   ensures[nonnil@C15] result != nil
 //@   requires[nonnil-args@C15] arg1 != nil && arg2 != nil
 //@ func matchesFunc$1
-//@   props C15
+//@   props C15 C04 C05
+//@   theory stream for C04 C05 C14
+//@   ensures[pure-arg1@C04,C05] stateless(arg1) || k(arg1) == old(k(arg1)) && epoch(arg1) == old(epoch(arg1))
+//@   ensures[pure-arg2@C04,C05] stateless(arg2) || k(arg2) == old(k(arg2)) && epoch(arg2) == old(epoch(arg2))
 //@   panics "matches() function second argument "
 //@   conforms functionQuery.Func
 //@   captures arg1 != nil && arg2 != nil
@@ -282,9 +337,12 @@ package xpath
 //@   ensures[nonnil@C15] result != nil
 //@   requires[nonnil-args@C15] arg1 != nil
 //@ func normalizespaceFunc$1
-//@   props C15
+//@   props C15 C04 C05
+//@   theory stream for C04 C05 C14
+//@   ensures[pure-arg1@C04,C05] stateless(arg1) || k(arg1) == old(k(arg1)) && epoch(arg1) == old(epoch(arg1))
 //@   conforms functionQuery.Func
 //@   captures arg1 != nil
+//@   loop 0 invariant[pure@C04,C05] (stateless(arg1) || k(arg1) == old(k(arg1)) && epoch(arg1) == old(epoch(arg1)))
 
 //@ func substringFunc
 //@   props C15
@@ -292,7 +350,11 @@ package xpath
 //@   ensures[nonnil@C15] result != nil
 //@   requires[nonnil-args@C15] arg1 != nil && arg2 != nil
 //@ func substringFunc$1
-//@   props C15
+//@   props C15 C04 C05
+//@   theory stream for C04 C05 C14
+//@   ensures[pure-arg1@C04,C05] stateless(arg1) || k(arg1) == old(k(arg1)) && epoch(arg1) == old(epoch(arg1))
+//@   ensures[pure-arg2@C04,C05] stateless(arg2) || k(arg2) == old(k(arg2)) && epoch(arg2) == old(epoch(arg2))
+//@   ensures[pure-arg3@C04,C05] arg3 != nil ==> stateless(arg3) || k(arg3) == old(k(arg3)) && epoch(arg3) == old(epoch(arg3))
 //@   panics "substring() function "
 //@   conforms functionQuery.Func
 //@   captures arg1 != nil && arg2 != nil
@@ -303,7 +365,10 @@ package xpath
 //@   ensures[nonnil@C15] result != nil
 //@   requires[nonnil-args@C15] arg1 != nil && arg2 != nil
 //@ func substringIndFunc$1
-//@   props C15
+//@   props C15 C04 C05
+//@   theory stream for C04 C05 C14
+//@   ensures[pure-arg1@C04,C05] stateless(arg1) || k(arg1) == old(k(arg1)) && epoch(arg1) == old(epoch(arg1))
+//@   ensures[pure-arg2@C04,C05] stateless(arg2) || k(arg2) == old(k(arg2)) && epoch(arg2) == old(epoch(arg2))
 //@   conforms functionQuery.Func
 //@   captures arg1 != nil && arg2 != nil
 
@@ -313,7 +378,9 @@ package xpath
 //@   ensures[nonnil@C15] result != nil
 //@   requires[nonnil-args@C15] arg1 != nil
 //@ func stringLengthFunc$1
-//@   props C15
+//@   props C15 C04 C05
+//@   theory stream for C04 C05 C14
+//@   ensures[pure-arg1@C04,C05] stateless(arg1) || k(arg1) == old(k(arg1)) && epoch(arg1) == old(epoch(arg1))
 //@   conforms functionQuery.Func
 //@   captures arg1 != nil
 
@@ -323,9 +390,14 @@ package xpath
 //@   ensures[nonnil@C15] result != nil
 //@   requires[nonnil-args@C15] arg1 != nil && arg2 != nil && arg3 != nil
 //@ func translateFunc$1
-//@   props C15
+//@   props C15 C04 C05
+//@   theory stream for C04 C05 C14
+//@   ensures[pure-arg1@C04,C05] stateless(arg1) || k(arg1) == old(k(arg1)) && epoch(arg1) == old(epoch(arg1))
+//@   ensures[pure-arg2@C04,C05] stateless(arg2) || k(arg2) == old(k(arg2)) && epoch(arg2) == old(epoch(arg2))
+//@   ensures[pure-arg3@C04,C05] stateless(arg3) || k(arg3) == old(k(arg3)) && epoch(arg3) == old(epoch(arg3))
 //@   conforms functionQuery.Func
 //@   captures arg1 != nil && arg2 != nil && arg3 != nil
+//@   loop 0 invariant[pure@C04,C05] (stateless(arg1) || k(arg1) == old(k(arg1)) && epoch(arg1) == old(epoch(arg1))) && (stateless(arg2) || k(arg2) == old(k(arg2)) && epoch(arg2) == old(epoch(arg2))) && (stateless(arg3) || k(arg3) == old(k(arg3)) && epoch(arg3) == old(epoch(arg3)))
 
 //@ func replaceFunc
 //@   props C15
@@ -333,10 +405,15 @@ package xpath
 //@   ensures[nonnil@C15] result != nil
 //@   requires[nonnil-args@C15] arg1 != nil && arg2 != nil && arg3 != nil
 //@ func replaceFunc$1
-//@   props C15
+//@   props C15 C04 C05
+//@   theory stream for C04 C05 C14
+//@   ensures[pure-arg1@C04,C05] stateless(arg1) || k(arg1) == old(k(arg1)) && epoch(arg1) == old(epoch(arg1))
+//@   ensures[pure-arg2@C04,C05] stateless(arg2) || k(arg2) == old(k(arg2)) && epoch(arg2) == old(epoch(arg2))
+//@   ensures[pure-arg3@C04,C05] stateless(arg3) || k(arg3) == old(k(arg3)) && epoch(arg3) == old(epoch(arg3))
 //@   panics "replace() function second argument is not a valid regexp pattern"
 //@   conforms functionQuery.Func
 //@   captures arg1 != nil && arg2 != nil && arg3 != nil
+//@   loop 0 invariant[pure@C04,C05] (stateless(arg1) || k(arg1) == old(k(arg1)) && epoch(arg1) == old(epoch(arg1))) && (stateless(arg2) || k(arg2) == old(k(arg2)) && epoch(arg2) == old(epoch(arg2))) && (stateless(arg3) || k(arg3) == old(k(arg3)) && epoch(arg3) == old(epoch(arg3)))
 
 //@ func notFunc
 //@   props C15
@@ -344,7 +421,9 @@ package xpath
 //@   ensures[nonnil@C15] result != nil
 //@   requires[nonnil-args@C15] arg1 != nil
 //@ func notFunc$1
-//@   props C15
+//@   props C15 C04 C05
+//@   theory stream for C04 C05 C14
+//@   ensures[pure-arg1@C04,C05] stateless(arg1) || k(arg1) == old(k(arg1)) && epoch(arg1) == old(epoch(arg1))
 //@   conforms functionQuery.Func
 //@   captures arg1 != nil
 
@@ -354,9 +433,13 @@ package xpath
 //@   ensures[nonnil@C15] result != nil
 //@   requires[nonnil-args@C15] q != nil && arg1 != nil
 //@ func stringJoinFunc$1
-//@   props C15
+//@   props C15 C04 C05
+//@   theory stream for C04 C05 C14
+//@   ensures[pure-q@C04,C05] stateless(q) || k(q) == old(k(q)) && epoch(q) == old(epoch(q))
+//@   ensures[pure-arg1@C04,C05] stateless(arg1) || k(arg1) == old(k(arg1)) && epoch(arg1) == old(epoch(arg1))
 //@   conforms functionQuery.Func
 //@   captures q != nil && arg1 != nil
+//@   loop 0 invariant[pure@C04,C05] (stateless(captured(q)) || k(captured(q)) == old(k(captured(q))) && epoch(captured(q)) == old(epoch(captured(q)))) && (stateless(arg1) || k(arg1) == old(k(arg1)) && epoch(arg1) == old(epoch(arg1)))
 
 //@ func lowerCaseFunc
 //@   props C15
@@ -364,7 +447,9 @@ package xpath
 //@   ensures[nonnil@C15] result != nil
 //@   requires[nonnil-args@C15] arg1 != nil
 //@ func lowerCaseFunc$1
-//@   props C15
+//@   props C15 C04 C05
+//@   theory stream for C04 C05 C14
+//@   ensures[pure-arg1@C04,C05] stateless(arg1) || k(arg1) == old(k(arg1)) && epoch(arg1) == old(epoch(arg1))
 //@   conforms functionQuery.Func
 //@   captures arg1 != nil
 
@@ -398,18 +483,19 @@ package xpath
 // receiver and the navigator they walk.
 
 //@ field type iteratorFunc() result
+//@   modifies nothing
 //@   ensures[nonnil@C15] result != nil
 
 //@ func (*Expr).Evaluate
-//@   props C15
+//@   props C15 C04 C05 C12
+//@   theory stream
 //@   requires root != nil          // API precondition: a navigator is passed
+//@   ensures[shared-tree-untouched@C04,C05] stateless(expr.q) || k(expr.q) == old(k(expr.q)) && epoch(expr.q) == old(epoch(expr.q))
+//@   ensures[valtype@C15] is(result, bool) || is(result, float64) || is(result, string) || is(result, *NodeIterator) || result == nil && is(expr.q, nopQuery)
 //@ func (*Expr).Evaluate$1
 //@   props C15
 //@   conforms type iteratorFunc
 //@   captures root != nil
-//@ func (*Expr).Select
-//@   props C15
-//@   requires root != nil
 
 //@ func (*ancestorQuery).Select
 //@   props C15
@@ -506,18 +592,28 @@ package xpath
 //@ func asString
 //@   props C15
 //@   requires[@C15] t != nil && (v == nil || valtype(v))
+//@   receiver v
+//@   tree-frame
+//@   disjoint-operands
+//@   preserves heap(F:NodeIterator.*)
 //@ func asNumber
 //@   props C15 C08
 //@   requires[@C15] t != nil
+//@   receiver o
+//@   tree-frame
+//@   disjoint-operands
+//@   preserves heap(F:NodeIterator.*)
 //@ func predicate
 //@   props C15
 //@   modifies nothing
 //@   ensures result != nil
 //@ func functionArgs
-//@   props C15 C02 C04
+//@   props C15 C02 C04 C05
 //@   requires[@C15] q != nil
 //@   modifies nothing
 //@   ensures[nonnil@C15] result != nil
+//@   ensures[fresh-or-stateless@C04,C05,C02] isFresh(result) || result == q && (is(q, *functionQuery) || is(q, *constantQuery) || is(q, nopQuery))
+//@   ensures[same-kind@C04] sameKind(q, result)
 //@ func numericExpr
 //@   props C15 C08
 //@   requires[@C15] t != nil && cb != nil
@@ -663,10 +759,12 @@ package xpath
 //@   props C15 C02
 //@   requires[@C15] t != nil
 //@   tree-frame
+//@   preserves heap(F:NodeIterator.*)
 //@ func (*descendantQuery).Select
 //@   props C15
 //@   requires[@C15] t != nil
 //@   tree-frame
+//@   preserves heap(F:NodeIterator.*)
 
 //@ field result predicate(n) result
 //@   requires n != nil
@@ -959,6 +1057,7 @@ package xpath
 //@ fields descendantOverDescendantQuery: config MatchSelf Predicate; label name; kids Input; scratch posit currentNode; state level
 //@ fields mergeQuery: kids Input Child; state iterator
 
+//@ define stateless(q) = is(q, *functionQuery) || is(q, *constantQuery) || is(q, nopQuery)
 //@ define sameKind(a, b) = tagof(b) == tagof(a) || is(a, *cachedChildQuery) && is(b, *childQuery)
 //@ define cloneKid(a, b) = (a == nil && b == nil) || (a != nil && b != nil && sameKind(a, b) && (isFresh(b) || b == a && (is(a, *constantQuery) || is(a, nopQuery))))
 //@ define resetOK(q) = (is(q, *contextQuery) ==> as(q, *contextQuery).count == 0)
@@ -1079,3 +1178,11 @@ package xpath
 //@ func (*mergeQuery).Evaluate
 //@   props C15 C02
 //@   theory stream
+
+//@ func (*Expr).Select
+//@   props C15 C04 C05 C12
+//@   theory stream
+//@   requires root != nil
+//@   modifies nothing
+//@   ensures[fresh-iterator@C04,C05] result != nil && isFresh(result) && result.query != nil && (isFresh(result.query) || is(result.query, *constantQuery) || is(result.query, nopQuery)) && result.node == root
+//@   ensures[shared-tree-untouched@C04,C05] stateless(expr.q) || k(expr.q) == old(k(expr.q)) && epoch(expr.q) == old(epoch(expr.q))
